@@ -310,8 +310,8 @@ def _exec(spk, rec, op, fs, plan, acked, hand, e):
             prec = 99
             oracle = 'C19.text_format'
         why = None
-        if not isinstance(res, list) or len(res) != len(want):
-            why = "loaded %s trains, expected %d" % (len(res) if isinstance(res, list) else type(res).__name__, len(want))
+        if not isinstance(res, (list, tuple)) or len(res) != len(want):
+            why = "loaded %s trains, expected %d" % (len(res) if isinstance(res, (list, tuple)) else type(res).__name__, len(want))
         else:
             for k, (st, w) in enumerate(zip(res, want)):
                 why = _times_ok(list(st.spikes), w, prec)
@@ -368,7 +368,7 @@ def _exec(spk, rec, op, fs, plan, acked, hand, e):
         start, b = op['start'], op['bin']
         ncol = len(mat[0])
         want = [[start + (k + 1) * b for k, v in enumerate(row) if v] for row in mat]
-        ok = err is None and isinstance(res, list) and len(res) == len(want) and all(
+        ok = err is None and isinstance(res, (list, tuple)) and len(res) == len(want) and all(
             [float(t) for t in st.spikes] == w and float(st.t_start) == start and float(st.t_end) == start + ncol * b
             for st, w in zip(res, want))
         if not ok:
